@@ -7,8 +7,11 @@
                                         LOCK_EX|LOCK_NB through fs2) -> set_len(0) -> try_clone + write "<pid>\n"
      Core::close          (src/lsm.rs): stop pipeline/tasks, flush, WAL close, WAL clean-up, dir sync
                                         = "shutdown side effects", then lockfile.release() LAST
-     Tree::drop           (src/lsm.rs): inside a tokio runtime: spawn(core.close()); outside: only a warning, the
-                                        background tasks keep CoreInner (and its LockFile) alive
+     Tree::drop           (src/lsm.rs): inside a tokio runtime: spawn(core.close()); outside one, the REPAIRED code
+                                        (F28) runs core.close() to completion with block_on on a temporary
+                                        current-thread runtime, so the lock is released before drop() returns; the
+                                        code before the repair only logged a warning and the background tasks kept
+                                        CoreInner (and its LockFile) alive until their runtime was shut down
    and the OS side (assumed, not verified): flock(2) — one exclusive advisory lock per open file
    description of the inode; released when the last descriptor of that description is closed, in
    particular when the process dies.
@@ -21,16 +24,20 @@ Import ListNotations.
 Definition oid := nat.    (* an opener = one call of TreeBuilder::build *)
 Definition proc := nat.   (* an operating-system process *)
 
-(* the two places where the code touches the directory before it owns the lock *)
+(* the two places where the code touches the directory before it owns the lock, and what a drop outside
+   a runtime does *)
 Record variant := {
-  trunc_on_open : bool;        (* OpenOptions::truncate(true) on LOCK: emptied by open(), before try_lock *)
-  subdirs_before_lock : bool   (* create_directory_structure() makes ALL sub-directories before Core::new *)
+  trunc_on_open : bool;         (* OpenOptions::truncate(true) on LOCK: emptied by open(), before try_lock *)
+  subdirs_before_lock : bool;   (* create_directory_structure() makes ALL sub-directories before Core::new *)
+  detached_drop_closes : bool   (* Tree::drop outside a runtime runs Core::close itself (temporary runtime + block_on) *)
 }.
-Definition pinned : variant := {| trunc_on_open := true; subdirs_before_lock := true |}.
-(* the planned repair: `.truncate(true)` removed (set_len(0) after the lock already empties the file) *)
-Definition fixed : variant := {| trunc_on_open := false; subdirs_before_lock := true |}.
-(* a further repair: only the base directory (needed for LOCK) before the lock, the rest after it *)
-Definition fixed_dirs : variant := {| trunc_on_open := false; subdirs_before_lock := false |}.
+Definition pinned : variant := {| trunc_on_open := true; subdirs_before_lock := true; detached_drop_closes := false |}.
+(* the first repair (F19): `.truncate(true)` removed (set_len(0) after the lock already empties the file) *)
+Definition fixed : variant := {| trunc_on_open := false; subdirs_before_lock := true; detached_drop_closes := false |}.
+(* a further repair (F27): only the base directory (needed for LOCK) before the lock, the rest after it *)
+Definition fixed_dirs : variant := {| trunc_on_open := false; subdirs_before_lock := false; detached_drop_closes := false |}.
+(* the third repair (F28): a Tree dropped outside a runtime closes the store before drop() returns *)
+Definition fixed_drop : variant := {| trunc_on_open := false; subdirs_before_lock := false; detached_drop_closes := true |}.
 
 Record oopts := { op_valid : bool; op_vlog : bool; op_ver : bool }.
 Definition plain : oopts := {| op_valid := true; op_vlog := false; op_ver := false |}.
@@ -71,9 +78,11 @@ Inductive pc :=
 | PLive         (* manifest/WAL/recovery/orphan clean-up done: the Tree was returned *)
 | PClosing      (* Core::close: shutdown side effects done, lock not yet released *)
 | PClosed       (* lock released; the Tree handle still exists *)
-| PDropping     (* Tree dropped inside a runtime: close spawned, not yet run *)
-| PDropClosing  (* the spawned close did its shutdown side effects *)
-| PDetached.    (* Tree dropped outside a runtime: no close; CoreInner kept alive by the background tasks *)
+| PDropping     (* Tree dropped: Core::close started (spawned on the current runtime, or — repaired code, outside a
+                   runtime — entered with block_on on a temporary one), nothing done yet *)
+| PDropClosing  (* that close did its shutdown side effects *)
+| PDetached.    (* code before the F28 repair only: Tree dropped outside a runtime, no close; CoreInner kept alive
+                   by the background tasks.  Unreachable when detached_drop_closes = true *)
 
 Record opener := { o_proc : proc; o_opts : oopts; o_pc : pc; o_fds : nat }.
 Definition at_pc (r : opener) (p : pc) (fds : nat) : opener :=
@@ -157,7 +166,8 @@ Inductive op :=
 | OClose (o : oid)                            (* tree.close().await on a live store: shutdown side effects *)
 | ODrop (o : oid)                             (* the Tree is dropped inside a tokio runtime *)
 | ODropDetached (o : oid)                     (* the Tree is dropped on a thread outside any runtime *)
-| ORuntimeGone (o : oid)                      (* the runtime of a detached opener shuts down: LockFile dropped *)
+| ORuntimeGone (o : oid)                      (* the runtime of a detached opener shuts down: LockFile dropped (a no-op
+                                                 for the repaired code: nothing is left on that runtime) *)
 | OCommit (o : oid)                           (* a transaction commits on a live store *)
 | OKill (p : proc).                           (* process p dies (SIGKILL, exit, crash): all its descriptors close *)
 
@@ -204,7 +214,12 @@ Definition apply_op (v : variant) (s : state) (a : op) : state :=
   | ODropDetached o =>
     match m o with
     | Some r => match o_pc r with
-                | PLive => mk (upd m o (Some (at_pc r PDetached 1))) h f l
+                | PLive =>
+                  (* repaired: Core::close runs from here on exactly as after a drop inside a runtime (its two
+                     steps — shutdown side effects; release — are the opener's next OSteps, so they interleave
+                     with the steps of every other opener); before the repair: nothing happens *)
+                  if detached_drop_closes v then mk (upd m o (Some (at_pc r PDropping 1))) h f l
+                  else mk (upd m o (Some (at_pc r PDetached 1))) h f l
                 | PClosed => mk (upd m o None) h f (l ++ [EvGone o])
                 | _ => s
                 end
@@ -235,6 +250,9 @@ Definition run (v : variant) (ops : list op) (s : state) : state := fold_left (a
 Definition open_ops (o : oid) (p : proc) (opts : oopts) : list op := OBegin o p opts :: repeat (OStep o) 8.
 Definition close_ops (o : oid) : list op := [OClose o; OStep o].
 Definition drop_ops (o : oid) : list op := [ODrop o; OStep o; OStep o].
+(* drop(tree) on a thread outside any runtime, until drop() returns: the repaired code has closed the store by
+   then (block_on); for the code before the repair the two steps are no-ops (PDetached does not step) *)
+Definition drop_detached_ops (o : oid) : list op := [ODropDetached o; OStep o; OStep o].
 
 Definition pc_of (s : state) (o : oid) : option pc := match st_op s o with Some r => Some (o_pc r) | None => None end.
 Definition is_live (s : state) (o : oid) : bool := match pc_of s o with Some PLive => true | _ => false end.
@@ -271,7 +289,8 @@ Definition do_drop (v : variant) (s : state) (o : oid) : state * answer :=
   end.
 Definition do_drop_detached (v : variant) (s : state) (o : oid) : state * answer :=
   match pc_of s o with
-  | Some PLive | Some PClosed => (run v [ODropDetached o] s, AOk)
+  | Some PLive => (run v (drop_detached_ops o) s, AOk)
+  | Some PClosed => (run v [ODropDetached o] s, AOk)
   | _ => (s, ANoop)
   end.
 Definition do_runtime_gone (v : variant) (s : state) (o : oid) : state * answer :=
